@@ -28,6 +28,10 @@ def run_call(c):
                 return PLm.Path(n).match(p, flags=f)
             finally:
                 os.chdir(old)
+        if api == 'pure_match':
+            return PLm.PurePosixPath(n).match(p, flags=f)
+        if api == 'pure_globmatch':
+            return PLm.PurePosixPath(n).globmatch(p, flags=f)
         if api == 'rglob':
             return sorted(str(x.relative_to(root)) for x in PLm.Path(root).rglob(p, flags=f))
         if api == 'ftranslate':
